@@ -102,7 +102,7 @@ func Run(c *ev.Ctx) int {
 	if !c.Thorough() {
 		var q []cfgT
 		for _, cf := range cfgs {
-			if cf.name == "xattr-otmp-verdir" || cf.name == "sidecar-notmp-nover" {
+			if cf.name == "xattr-otmp-verdir" || cf.name == "sidecar-notmp-nover" || cf.name == "sidecar-otmp-verdir" {
 				q = append(q, cf)
 			}
 		}
@@ -144,13 +144,13 @@ func runConfig(c *ev.Ctx, cf cfgT) {
 			cl.CloseIdle()
 		}
 	}()
-	nprog := c.Pick(50, 300)
+	nprog := c.Pick(40, 300)
 	for i := 0; i < nprog && !w.fatal; i++ {
 		id := fmt.Sprintf("%s/prog/%d", cf.name, i)
 		if !c.Want(id) {
 			continue
 		}
-		p := &prog{w: w, id: id, idx: i, r: c.Rng(id), rr: c.Rng(id + "/reads"), model: map[string]*obj{}, ghost: map[string]*obj{}, marker: map[string]bool{}}
+		p := &prog{w: w, id: id, idx: i, r: c.Rng(id), rr: c.Rng(id + "/reads"), model: map[string]*obj{}, ghost: map[string]*obj{}, marker: map[string]bool{}, hist: map[string]*keyHist{}}
 		p.run()
 	}
 	if i, cr := env.Dead(); cr != nil && !w.fatal {
@@ -206,7 +206,8 @@ type prog struct {
 	midRestart bool
 	abort      bool            // stop judging (environment disturbed)
 	ghost      map[string]*obj // last known state of keys whose current state is unknown (failed write) or a delete marker
-	marker     map[string]bool // key currently holds a delete marker (versioning-enabled bucket)
+	marker     map[string]bool // key held a delete marker (versioning-enabled bucket)
+	hist       map[string]*keyHist
 }
 
 func (p *prog) c() *ev.Ctx { return p.w.c }
@@ -238,7 +239,7 @@ func (p *prog) detail(key string, o *obj, extra map[string]any) map[string]any {
 		d["key_class"] = o.keyClass
 		d["header_class"] = o.hdrClass
 		d["after_restart"] = p.epoch > o.epoch
-		d["overwrote_existing"] = o.prev != nil
+		d["overwrote_existing"] = o.overwrote
 	}
 	for k, v := range extra {
 		d[k] = v
@@ -462,19 +463,14 @@ func (p *prog) install(k keyT, o *obj, g int) {
 	}
 	delete(p.ghost, k.key)
 	o.afterMarker = p.marker[k.key] // sticky: "the key held a delete marker at some time before this upload"
-	o.prev = was.snapshot()
-	if o.prev != nil {
-		o.prevTags = o.prev.tags
-		o.history = append(append([][]byte{}, o.prev.history...), o.prev.body)
-		o.prev.history = nil
-		o.oldCks = map[string]bool{}
-		for v := range o.prev.oldCks {
-			o.oldCks[v] = true
-		}
-		for v := range o.prev.seenCks {
-			o.oldCks[v] = true
-		}
+	h := p.hist[k.key]
+	if h == nil {
+		h = newHist()
+		p.hist[k.key] = h
 	}
+	h.absorb(was)
+	o.hist = h
+	o.overwrote = was != nil
 	p.model[k.key] = o
 	p.c().Add("uploads_acked", 1)
 	base := o.enc
@@ -486,6 +482,13 @@ func (p *prog) install(k keyT, o *obj, g int) {
 	stat("acked_by_size_class", o.sizeClass)
 	stat("acked_by_config", p.w.cf.name)
 	p.verify(k.key)
+}
+
+func (p *prog) histOf(key string) *keyHist {
+	if p.hist[key] == nil {
+		p.hist[key] = newHist()
+	}
+	return p.hist[key]
 }
 
 // drop: the state of the key is unknown from now on (failed write); what it held before is
@@ -622,6 +625,7 @@ func (p *prog) doPut(k keyT, e encT, body []byte, hs *hdrSet, g int) {
 	case refused:
 		return
 	case failed:
+		p.histOf(k.key).absorb(o) // effect unknown: whatever it may have written is a possible leftover later
 		p.drop(k.key)
 		return
 	}
@@ -772,6 +776,7 @@ func (p *prog) opMultipart(big bool) {
 		p.w.client(g).AbortMPU(p.bucket, k.key, init.UploadId)
 		return
 	case failed:
+		p.histOf(k.key).absorb(o)
 		p.drop(k.key)
 		return
 	}
@@ -860,7 +865,7 @@ func (p *prog) opCopy() {
 		if o.tags == nil {
 			o.tags = map[string]string{}
 		}
-		o.tagsLiteral = nil
+		o.tagsLiteral = copyMap(src.tagsLiteral)
 	}
 	if supplied {
 		// headers are sent even when the directive says COPY: they must then be ignored
@@ -893,6 +898,7 @@ func (p *prog) opCopy() {
 	case refused:
 		return
 	case failed:
+		p.histOf(dst.key).absorb(o)
 		p.drop(dst.key)
 		return
 	}
@@ -938,7 +944,8 @@ func (p *prog) opPutTagging() {
 	}
 	// a tagging change is a write of the key's tag set only
 	n := o.snapshot()
-	n.prev, n.prevTags = o.prev, copyMap(o.tags)
+	p.histOf(key).absorbTags(o.tags)
+	n.hist = p.histOf(key)
 	n.tags = tagMap(tags)
 	n.tagsLiteral = nil
 	if !strings.Contains(n.enc, "+put-tagging") {
@@ -970,7 +977,8 @@ func (p *prog) opDeleteTagging() {
 		return
 	}
 	n := o.snapshot()
-	n.prev, n.prevTags = o.prev, copyMap(o.tags)
+	p.histOf(key).absorbTags(o.tags)
+	n.hist = p.histOf(key)
 	n.tags = map[string]string{}
 	n.tagsLiteral = nil
 	if !strings.Contains(n.enc, "+delete-tagging") {
@@ -1007,6 +1015,7 @@ func (p *prog) opDelete() {
 		p.marker[key] = true
 	} else {
 		delete(p.ghost, key) // an acknowledged delete removes the object with all its attributes
+		delete(p.hist, key)
 	}
 	delete(p.model, key)
 }
@@ -1047,12 +1056,14 @@ func (p *prog) verify(key string) {
 	path := s3c.ObjPath(p.bucket, key)
 	complete := true
 	invisible := false
+	unread := false // some read path could not be observed at all (transport error)
 	viol := func(read, what string, exp, got any, g int) {
 		c.Violation(p.sig(read, what, o), p.id, p.detail(key, o, map[string]any{"read_path": read, "aspect": what, "read_gateway": g, "expected": exp, "got": got}))
 	}
 	status := func(read string, resp *s3c.Resp, g int) bool {
 		if resp == nil {
 			complete = false
+			unread = true
 			return false
 		}
 		if resp.Status >= 500 {
@@ -1100,7 +1111,7 @@ func (p *prog) verify(key string) {
 			switch {
 			case o.tagsLiteral != nil && mapsEqual(got, o.tagsLiteral):
 				what = "tags-not-urldecoded"
-			case o.prevTags != nil && len(o.prevTags) > 0 && mapsEqual(got, o.prevTags):
+			case o.hist.hadTags(got):
 				what = "tags-stale"
 			}
 			viol("gettagging", what, fmtMap(o.tags), fmtMap(got), g)
@@ -1108,6 +1119,7 @@ func (p *prog) verify(key string) {
 		}
 	} else {
 		complete = false
+		unread = true
 	}
 
 	// 2. GET with checksum mode
@@ -1189,8 +1201,9 @@ func (p *prog) verify(key string) {
 		}
 	}
 
-	if invisible {
-		// the object cannot be read back at all: its stored state can no longer be followed, stop using it (as copy source, too)
+	if invisible || unread {
+		// the object cannot be read back (or a read was lost): its stored state can no longer be followed,
+		// stop using it (as copy source, too) until the next acknowledged upload
 		p.drop(key)
 	}
 	if complete && !p.abort {
